@@ -765,7 +765,7 @@ func instantiate(t *rapid.T, name, pattern string, extra ...string) string {
 	var out []string
 	// (extra: literal tokens of the other handlers' patterns, so that placeholders also take
 	// values that lead into other branches of the mux, e.g. into a mounted sub-mux)
-	pool := []string{"1", "42", "a", "new", "get", "set", "x-y", "$z", "call", "ID"}
+	pool := []string{"1", "42", "a", "new", "get", "set", "x-y", "$z", "call", "ID", "q\"x", "b\\c"}
 	if ExoticNames {
 		pool = append(pool, "josé", "ü")
 	}
